@@ -732,6 +732,28 @@ func Eq(a, b *Term) *Term {
 			return r
 		}
 	}
+	// a single monomial k*f1*...*fn is zero iff some factor is zero
+	if _, m := splitCoef(d); (d.Op == OSum && len(d.Args) == 1 && d.Rat.Sign() == 0) || d.Op == OMul || d.Op == ORDiv || d.Op == OToReal {
+		fs := []*Term{m}
+		if m.Op == OMul {
+			fs = m.Args
+		}
+		if len(fs) > 1 || m.Op == ORDiv || m.Op == OToReal {
+			r := False
+			for _, f := range fs {
+				switch {
+				case f.Op == ORDiv:
+					// 1/x is never zero
+				case nonZero(f):
+				case f.Op == OToReal:
+					r = Or(r, Eq(f.Args[0], I64(0)))
+				default:
+					r = Or(r, normCmp(OEq, f))
+				}
+			}
+			return r
+		}
+	}
 	return normCmp(OEq, d)
 }
 
